@@ -61,6 +61,9 @@ func zeroStruct(base string, et EType) (interface{}, func() interface{}) {
 	return p, func() interface{} { return p }
 }
 
+// round 7: the object a view receiver was cut from (nil: the receiver is no view); set by buildRecv
+var recvParent, buildParent interface{}
+
 // the receiver described by spec (nil: a fresh object as the constructors return it)
 func buildRecv(spec *Recipe, base string, et EType) (interface{}, func() interface{}) {
 	if spec == nil {
@@ -72,6 +75,14 @@ func buildRecv(spec *Recipe, base string, et EType) (interface{}, func() interfa
 	s := *spec
 	s.Kind = base
 	obj := build(s, et)
+	if len(s.Ops) > 0 {
+		if buildParent != obj {
+			recvParent = buildParent
+		}
+		if base == "dv" || base == "sv" {
+			recvParent = obj
+		}
+	}
 	switch base {
 	case "dv":
 		v := obj.(ad.Vector)
@@ -411,7 +422,9 @@ func recvLabel(spec *Recipe) string {
 	}
 	var l []string
 	for _, o := range spec.Ops {
-		if o.T {
+		if o.Tip {
+			l = append(l, "Tip")
+		} else if o.T {
 			l = append(l, "T")
 		} else {
 			l = append(l, fmt.Sprintf("slice[%d:%d,%d:%d]", o.Rf, o.Rt, o.Cf, o.Ct))
@@ -495,10 +508,20 @@ func runRecv(rc Recipe) (res Result) {
 	cause := recvCause(rc, base, et, data, rc.Recv)
 
 	// first generation: recycled receiver, and a fresh one for the oracle
+	recvParent = nil
 	target, get := buildRecv(rc.Recv, base, et)
+	parent, pdump := recvParent, ""
+	if parent != nil {
+		pdump = dumpObj(parent)
+	}
 	old := recvStateCoq(base, et, get(), table)
 	ot := tmpsCoq(get())
 	rk, rmsg := decodeInto(table, data, target)
+	if parent != nil && rk == "ok" {
+		if a := dumpObj(parent); a != pdump {
+			fail("recv-parent", cause, fmt.Sprintf("decoding into a view (%s) wrote through to the object the view was cut from: %s", recvLabel(rc.Recv), firstDiff(a, pdump)))
+		}
+	}
 	gr := outcomeOf(rk, rmsg)
 	var back interface{}
 	keys := "[]"
@@ -632,12 +655,22 @@ func recvShape(spec *Recipe) string {
 	case spec.Kind == "zero":
 		return "zero-struct"
 	}
-	t, s := false, false
+	t, s, tip := false, false, false
 	for _, o := range spec.Ops {
+		if o.Tip {
+			tip = true
+			continue
+		}
 		t = t != o.T
 		s = s || !o.T
 	}
 	switch {
+	case tip && t:
+		return "tip-transposed"
+	case tip && s:
+		return "tip-slice"
+	case tip:
+		return "tip"
 	case t && s:
 		return "transposed-slice"
 	case t:
@@ -880,7 +913,7 @@ func genRecv(r *Rng, base string, et EType, r0, c0, n int, src *Recipe) *Recipe 
 func finalDims(rc Recipe) (int, int) {
 	rows, cols := rc.R0, rc.C0
 	for _, o := range rc.Ops {
-		if o.T {
+		if o.T || o.Tip {
 			rows, cols = cols, rows
 		} else {
 			rows, cols = o.Rt-o.Rf, o.Ct-o.Cf
